@@ -17,11 +17,30 @@ add("C02", "exploration",
     "Only contract-conforming commits (tag position < committed count) are judged. Trusts the queue model.",
     "runtime monitoring: reference-model oracle over generated tagged histories", "3/C02", "ring-history")
 
+add("C08", "exploration",
+    "Every stream-processing block of the library (42 catalogue entries incl. all sync blocks, Skip, Delay, RationalResampler, FIR/FFT filters, Hilbert, AU codec, RtlSdrDecode, SymbolSync/ZeroCrossing with and without clock output, deframers, StreamToPdu, VecToStream, ToText, FftStream, CMA, WPCR) is run twice on the same seeded parameters and input: one-shot on default streams and under a seeded adversarial drip-feed schedule on 1-4 page streams with the harness as both neighbours; outputs must be bit-identical, every intermediate drain a prefix, and work() must never unwind. Decides chunking independence on the executions produced.",
+    "Reference = the same implementation run one-shot (a defect that is chunking-independent is C10/C11's business). Floats are compared bitwise. Hooks must be passive.",
+    "runtime monitoring: differential oracle (drip-fed vs one-shot run of the real block)", "3/C08", "drip-feed")
+add("C09", "exploration",
+    "On the C08 executions every work() call is observed through the stream hooks: samples offered vs moved per stream, handle counts after return, and the stream a wait verdict names (identified by a non-blocking wait(0) probe through a yield hook). After each wait verdict the harness satisfies exactly that request on that stream alone and demands progress or a changed verdict within 3 calls; Again without any stream event is re-called 8 times (idle spin); after the inputs ended and outputs are drained, EOF or a wait on an ended input is demanded within 8 calls.",
+    "WaitForFunc is opaque: only moved<=offered, leaks, spin and retirement (with eof()) are judged for it. Bounds 3/8/8 calls are the bounded restatement of 'makes progress' / 'retires'.",
+    "runtime monitoring: per-call verdict checker over hook events with active probes", "3/C09", "drip-feed")
+add("C10", "exploration",
+    "Executable specifications written from the documentation (arithmetic/logic/conversion blocks, slicer, NRZI, LFSR descrambler incl. general mask/length, both correlators, Delay, Skip, Tee, RationalResampler out[k]=in[floor(k*D/I)] with count ceil(N*I/D), RtlSdrDecode within 1 ulp, VectorSource, VecToStream, StreamToPdu on well-formed bursts, BurstTagger, ToText) compared exactly with the block's output, both one-shot and drip-fed, on seeded and boundary inputs of 0..3 stream capacities.",
+    "Specifications are the harness author's reading of the documentation; integer blocks are fed only representable results (the crate builds with overflow checks); StreamToPdu only with bursts that fit max_size.",
+    "runtime monitoring: executable-specification oracle over generated inputs", "3/C10", "drip-feed")
+add("C12", "exploration",
+    "Inputs carry uniquely keyed tags (0-5 per sample, clustered at likely split points); under drip-feed schedules the multiset (key, value, absolute output index) seen at the output must equal the expected mapping: identity for one-to-one blocks (first input only for multi-input blocks), both outputs of Tee, +delay for Delay, index/decimation for FirFilter, minus skip for Skip, identity for Hilbert/FftFilter/FftFilterFloat; added tags of VectorSource, CorrelateAccessCodeTag, BurstTagger, VecToStream on exactly the specified samples.",
+    "Blocks documented as dropping tags (RationalResampler, RtlSdrDecode, AU codec, ...) are not judged. Tags on samples that never reach the output (FIR history tail) are expected to be absent.",
+    "runtime monitoring: exactly-once oracle over uniquely tagged inputs", "3/C12", "drip-feed")
+
 ALL = ["C%02d" % i for i in range(1, 21)]
 
 ENGINES = [
     dict(name="ring-history", path="harness/src/ring.rs", serves_properties=["C01", "C02"],
          kind_free_text="random/walker/boundary operation histories on one stream vs an executable queue model"),
+    dict(name="drip-feed", path="harness/src/drip.rs, duts.rs, blockprops.rs", serves_properties=["C08", "C09", "C10", "C12"],
+         kind_free_text="harness plays both neighbours of one block on small streams; per-call observation through hook events"),
 ]
 
 def main():
